@@ -3,12 +3,17 @@ C13 — Pareto dominance, non-dominated sorting and hypervolume computations are
 
 Property theorems about the models in `Model/Pareto.lean` and
 `Model/Hypervolume.lean` (tied to the C++ by the exact correspondence check
-`checks/c13.py`).  All statements quantify over every finite list of integer
-points, of every dimension and size.
+`checks/c13.py`).  Helper lemmas: `Lemmas/Pareto.lean`, `Lemmas/FastSort.lean`,
+`Lemmas/Hypervolume.lean`.  All statements quantify over every finite list of
+integer points, of every dimension and every size (duplicates, ties, dominated
+and collinear points included); the only hypothesis is the C++ precondition that
+all vectors of a call have the same dimension.
 -/
-import SharkVerif.Lemmas.Pareto
+import SharkVerif.Lemmas.FastSort
 namespace SharkVerif.C13
 open SharkVerif.Pareto
+
+/-! ## Dominance -/
 
 /-- **C13 (dominance)**: `shark::dominance` returns the relation of its definition:
 `LHS_DOMINATES_RHS` iff `p ≤ q` in every objective and not `q ≤ p`, symmetrically
@@ -17,29 +22,99 @@ theorem dominance_spec (p q : Pt) (h : p.length = q.length) :
     (dominance p q = .lhsDominates ↔ dominates p q = true) ∧
     (dominance p q = .rhsDominates ↔ dominates q p = true) ∧
     (dominance p q = .equivalent ↔ p = q) ∧
-    (dominance p q = .incomparable ↔ leAll p q = false ∧ leAll q p = false) := by
-  have h1 := countLt_eq_zero (p := p) (q := q) h
-  have h2 := countLt_eq_zero (p := q) (q := p) h.symm
-  unfold dominance dominates
-  cases hpq : leAll p q <;> cases hqp : leAll q p <;> simp only [hpq, hqp] at h1 h2
-  · have a : countLt q p > 0 := by simp at h1; omega
-    have b : countLt p q > 0 := by simp at h2; omega
-    simp [a, b]
-    intro e; subst e; simp [leAll_refl] at hpq
-  · have a : countLt q p > 0 := by simp at h1; omega
-    have b : countLt p q = 0 := by simpa using h2
-    simp [a, b]
-    intro e; subst e; simp [leAll_refl] at hpq
-  · have a : countLt q p = 0 := by simpa using h1
-    have b : countLt p q > 0 := by simp at h2; omega
-    simp [a, b]
-    intro e; subst e; simp [leAll_refl] at hqp
-  · have a : countLt q p = 0 := by simpa using h1
-    have b : countLt p q = 0 := by simpa using h2
-    simp [a, b]
-    exact leAll_antisymm hpq hqp
+    (dominance p q = .incomparable ↔ leAll p q = false ∧ leAll q p = false) :=
+  dominance_iff p q h
 
 example : dominance [1, 2] [1, 3] = .lhsDominates ∧ dominance [1, 3] [1, 3] = .equivalent ∧
     dominance [0, 3] [1, 2] = .incomparable := by decide
+
+/-- strict dominance is a strict partial order (what makes `rankSpec` well-founded) -/
+theorem dominates_strict_order :
+    (∀ p : Pt, dominates p p = false) ∧
+    (∀ p q s : Pt, dominates p q = true → dominates q s = true → dominates p s = true) :=
+  ⟨dominates_irrefl, fun _ _ _ => dominates_trans⟩
+
+/-! ## The rank specification -/
+
+/-- **the definition of the non-domination rank**: `rankSpec S p` is one plus the highest rank
+among the points of `S` dominating `p` (the maximum of the empty set being 0). -/
+theorem rankSpec_def (S : List Pt) (p : Pt) :
+    rankSpec S p = 1 + ((S.filter fun q => dominates q p).map (rankSpec S)).foldl max 0 :=
+  rankSpec_eq S p
+
+/-- … equivalently: every dominator has a smaller rank, and the rank is 1 or exactly one more
+than the rank of some dominator. -/
+theorem rankSpec_characterisation (S : List Pt) (p : Pt) :
+    (∀ q ∈ S, dominates q p = true → rankSpec S q < rankSpec S p) ∧
+    (rankSpec S p = 1 ∨ ∃ q ∈ S, dominates q p = true ∧ rankSpec S p = rankSpec S q + 1) :=
+  ⟨fun _ hq hd => rankSpec_lt S hq hd, rankSpec_cases S p⟩
+
+/-- the defining equation has exactly one solution on `S`: any rank assignment `f` with
+"`f p` = 1 + highest `f` among the dominators of `p`" coincides with `rankSpec` -/
+theorem rankSpec_unique (S : List Pt) (f : Pt → Nat)
+    (hf : ∀ p ∈ S, f p = 1 + ((S.filter fun q => dominates q p).map f).foldl max 0) :
+    ∀ p ∈ S, f p = rankSpec S p := by
+  suffices H : ∀ k, ∀ p ∈ S, (S.countP fun q => dominates q p) = k → f p = rankSpec S p by
+    intro p hp; exact H _ p hp rfl
+  intro k
+  induction k using Nat.strongRecOn with
+  | _ k ih =>
+    intro p hp hk
+    rw [hf p hp, rankSpec_eq S p]
+    congr 2
+    apply List.map_congr_left
+    intro q hq
+    have hq' := List.mem_filter.mp hq
+    have hlt : (S.countP fun x => dominates x q) < S.countP fun x => dominates x p :=
+      countP_lt_of_imp S (fun x => dominates x q) (fun x => dominates x p)
+        (fun x hx => dominates_trans hx hq'.2) q hq'.1 hq'.2 (by simp [dominates_irrefl])
+    exact ih _ (by omega) q hq'.1 rfl
+
+/-! ## fastNonDominatedSort -/
+
+/-- **C13 (sorting, main theorem)**: for every list of points of equal dimension — any size,
+duplicates, ties, dominated points — the model of `fastNonDominatedSort` assigns to the `i`-th
+point exactly `rankSpec`, the rank given by the definition. -/
+theorem fastSort_eq_rankSpec (pts : List Pt) (m : Nat) (hd : ∀ p ∈ pts, p.length = m) :
+    fastSort pts = pts.map (rankSpec pts) :=
+  fastSort_eq hd
+
+/-- the result does not depend on the contents of the rank array passed in, and the
+`while(!front.empty())` loop has reached the empty front when the model's pass budget
+(`n + 1` passes) is used up: model and C++ loop stop in the same state. -/
+theorem fastSort_terminates (pts : List Pt) (m : Nat) (hd : ∀ p ∈ pts, p.length = m)
+    (ranks0 : Array Nat) (h0 : ranks0.size = pts.length) :
+    (fastSortState pts ranks0).1 = [] ∧
+    (fastSortState pts ranks0).2.rank.toList = pts.map (rankSpec pts) := by
+  obtain ⟨h1, hs, hr⟩ := fastSortState_spec hd ranks0 h0
+  refine ⟨h1, ?_⟩
+  apply List.ext_getElem
+  · simp [hs]
+  · intro i _ h2
+    have hi : i < pts.length := by simpa using h2
+    have := hr i hi
+    unfold gd at this
+    rw [Array.getD_eq_getD_getElem?, Array.getElem?_eq_getElem (by omega)] at this
+    simp only [Option.getD_some] at this
+    simp only [Array.getElem_toList, List.getElem_map]
+    rw [this, rk, pt_eq pts hi]
+
+/-- the loop invariant holds initially and is preserved by every pass (all reachable loop states) -/
+theorem fastSort_invariant (pts : List Pt) (m : Nat) (hd : ∀ p ∈ pts, p.length = m) :
+    (∀ r0 : Array Nat, r0.size = pts.length → Inv pts 2 (initState pts r0).1 (initState pts r0).2) ∧
+    (∀ c front st, Inv pts c front st →
+      Inv pts (c + 1) (round pts c front st).next.toList (round pts c front st)) :=
+  ⟨fun r0 h0 => init_inv hd r0 h0, fun _ _ _ h => round_inv hd h⟩
+
+/-- in every reachable loop state no dominator counter is decremented more often than its value:
+the unsigned counters of the C++ never wrap around -/
+theorem fastSort_counters_never_wrap (pts : List Pt) (m : Nat) (hd : ∀ p ∈ pts, p.length = m)
+    (c : Nat) (front : List Nat) (st : FS) (h : Inv pts c front st) (x : Nat) (hx : x < pts.length) :
+    (front.flatMap (domList pts)).count x ≤ st.cnt.getD x 0 :=
+  round_counts_le hd h x hx
+
+/-- non-vacuity: a population with duplicates, a tie in one coordinate and three fronts -/
+example : fastSort [[1, 1], [1, 1], [1, 2], [2, 2], [0, 3]] = [1, 1, 2, 3, 1] ∧
+    (∀ p ∈ [[1, 1], [1, 1], [1, 2], [2, 2], [0, 3]], List.length (α := Int) p = 2) := by decide
 
 end SharkVerif.C13
